@@ -365,15 +365,6 @@ theorem operand_not_tail_counterexample :
   refine ⟨rfl, ?_⟩
   simp [evalE, bind_eq, M.bind, alloc, load, litVal, unop, liftOp, pure, M.pure]
 
-def exCtx : Ctx :=
-  { enums := [{ name := "E", items := [{ name := "one", value := 0, fields := none }, { name := "two", value := 1, fields := none }] }] }
-/-- `match E::one { E::one -> E::two; E::two -> E::one; }` -/
-def exFlip : Expr := .matchE (.enumVal "E" "one") [.item "E" "one" (.enumVal "E" "two"), .item "E" "two" (.enumVal "E" "one")]
-
-theorem exCtx_one : exCtx.findItem "E" "one" = some (0, { name := "one", value := 0, fields := none }) := by rfl
-theorem exCtx_two : exCtx.findItem "E" "two" = some (1, { name := "two", value := 1, fields := none }) := by rfl
-theorem exCtx_rec : exCtx.enumIsRec "E" = false := by rfl
-
 /-- **The scrutinee of a `match` is not in tail position** (the defect f00daac of the pinned tree treated it as one):
 the `match` evaluates its scrutinee first, in the same state, and yields ANOTHER value (`E::two` = 1 where the scrutinee
 is `E::one` = 0). -/
